@@ -37,8 +37,8 @@ func init() {
 		{Name: "topk-mem", NewMachine: func() Machine { return &withCodec{genericMachine: &topkMem{}} }, Gen: genC04,
 			Monitors: []Monitor{monitorTopK("mem")}, OpName: topkOpName,
 			Nontrivial: func(r *RunResult) bool { return countOps(r, tkInsert) >= 4 },
-			Rule: ">=4 inserts (repeated keys, ties, narrow sketches) with Values() observed in between; distinct by SHA-1",
-			Quick: 300, Thorough: 5000},
+			Rule:       ">=4 inserts (repeated keys, ties, narrow sketches) with Values() observed in between; distinct by SHA-1",
+			Quick:      300, Thorough: 5000},
 	}
 
 	for _, sg := range structGens {
@@ -46,12 +46,12 @@ func init() {
 		for _, p := range []string{"C10", "C11", "C18"} {
 			registry[p] = append(registry[p], Suite{Name: sg.name, NewMachine: sg.mk, Gen: genPersist(sg, p),
 				Monitors: []Monitor{monitorPersist(sg, p)}, OpName: sg.opName,
-				Rule: "reachable state built by a random history (incl. removals / partially filled heaps), then the persistence scenario; distinct by SHA-1",
+				Rule:  "reachable state built by a random history (incl. removals / partially filled heaps), then the persistence scenario; distinct by SHA-1",
 				Quick: 40, Thorough: 1500})
 		}
 		registry["C17"] = append(registry["C17"], Suite{Name: sg.name, NewMachine: sg.mk, Gen: genC17(sg),
 			Monitors: []Monitor{monitorPersist(sg, "C17")}, OpName: sg.opName,
-			Rule: "twin or unrelated pairs, Equals both ways, paired queries, single extra operations; distinct by SHA-1",
+			Rule:  "twin or unrelated pairs, Equals both ways, paired queries, single extra operations; distinct by SHA-1",
 			Quick: 60, Thorough: 2000})
 	}
 
@@ -72,19 +72,19 @@ func init() {
 		{Name: "bloom-mem", NewMachine: func() Machine { return &withCodec{genericMachine: &bloomMem{}} }, Gen: genC01,
 			Monitors: []Monitor{monitorBloom("mem")}, OpName: bloomOpName,
 			Nontrivial: func(r *RunResult) bool { return countOps(r, blInsert) >= 2 },
-			Rule: "history with >=2 inserts followed by lookups of inserted and fresh elements; distinct by SHA-1 of the case",
-			Quick: 300, Thorough: 5000},
+			Rule:       "history with >=2 inserts followed by lookups of inserted and fresh elements; distinct by SHA-1 of the case",
+			Quick:      300, Thorough: 5000},
 	}
 	machineByID[4] = func() Machine { return &bloomRedis{} }
 	registry["C01"] = append(registry["C01"], Suite{Name: "bloom-redis", NewMachine: func() Machine { return &bloomRedis{} }, Gen: genC01,
 		Monitors: []Monitor{monitorBloom("redis")}, OpName: bloomOpName,
 		Nontrivial: func(r *RunResult) bool { return countOps(r, blInsert) >= 2 },
-		Rule: "as bloom-mem, against the Redis-backed filter on miniredis", Quick: 150, Thorough: 2500})
+		Rule:       "as bloom-mem, against the Redis-backed filter on miniredis", Quick: 150, Thorough: 2500})
 	machineByID[10] = func() Machine { return &topkRedis{} }
 	registry["C04"] = append(registry["C04"], Suite{Name: "topk-redis", NewMachine: func() Machine { return &topkRedis{} }, Gen: genC04,
 		Monitors: []Monitor{monitorTopK("redis")}, OpName: topkOpName,
 		Nontrivial: func(r *RunResult) bool { return countOps(r, tkInsert) >= 4 },
-		Rule: "as topk-mem, against the Redis-backed Top-K on miniredis", Quick: 120, Thorough: 2500})
+		Rule:       "as topk-mem, against the Redis-backed Top-K on miniredis", Quick: 120, Thorough: 2500})
 	mkPair := func(a, b func() Machine) func() Machine {
 		return func() Machine { return &pairMachine{a: a(), b: b()} }
 	}
@@ -143,25 +143,25 @@ func init() {
 		{Name: "hll-mem", NewMachine: func() Machine { return &withCodec{genericMachine: &hllMem{}} }, Gen: genC05,
 			Monitors: []Monitor{monitorHLL("mem", "C05")}, OpName: hllOpName,
 			Nontrivial: func(r *RunResult) bool { return countOps(r, hlUpdate) >= 1 },
-			Rule: ">=1 update then counts under all four flag combinations; distinct by SHA-1",
-			Quick: 250, Thorough: 3000},
+			Rule:       ">=1 update then counts under all four flag combinations; distinct by SHA-1",
+			Quick:      250, Thorough: 3000},
 	}
 	registry["C06"] = []Suite{
 		{Name: "hll-mem", NewMachine: func() Machine { return &withCodec{genericMachine: &hllMem{}} }, Gen: genC06,
 			Monitors: []Monitor{monitorHLL("mem", "C06")}, OpName: hllOpName,
 			Nontrivial: func(r *RunResult) bool { return countOps(r, hlMerge) >= 1 },
-			Rule: "permuted+duplicated twin sequences and a split stream merged; distinct by SHA-1",
-			Quick: 250, Thorough: 3000},
+			Rule:       "permuted+duplicated twin sequences and a split stream merged; distinct by SHA-1",
+			Quick:      250, Thorough: 3000},
 	}
 	machineByID[6] = func() Machine { return &hllRedis{} }
 	registry["C05"] = append(registry["C05"], Suite{Name: "hll-redis", NewMachine: func() Machine { return &hllRedis{} }, Gen: genC05,
 		Monitors: []Monitor{monitorHLL("redis", "C05")}, OpName: hllOpName,
 		Nontrivial: func(r *RunResult) bool { return countOps(r, hlUpdate) >= 1 },
-		Rule: "as hll-mem, against the Redis-backed sketch on miniredis", Quick: 100, Thorough: 1500})
+		Rule:       "as hll-mem, against the Redis-backed sketch on miniredis", Quick: 100, Thorough: 1500})
 	registry["C06"] = append(registry["C06"], Suite{Name: "hll-redis", NewMachine: func() Machine { return &hllRedis{} }, Gen: genC06,
 		Monitors: []Monitor{monitorHLL("redis", "C06")}, OpName: hllOpName,
 		Nontrivial: func(r *RunResult) bool { return countOps(r, hlMerge) >= 1 },
-		Rule: "as hll-mem, against the Redis-backed sketch on miniredis", Quick: 100, Thorough: 1500})
+		Rule:       "as hll-mem, against the Redis-backed sketch on miniredis", Quick: 100, Thorough: 1500})
 	registry["C03"] = []Suite{
 		{Name: "cms-mem", NewMachine: func() Machine { return &withCodec{genericMachine: &cmsMem{}} }, Gen: genC03,
 			Monitors: []Monitor{monitorCMS("mem", "C03")}, OpName: cmsOpName,
